@@ -43,9 +43,43 @@ def elem_arith(op, x, y, real):
     raise Unsupported(f"array operator {type(op).__name__}")
 
 
+def arr2_binop(ev, state, op, a, b, node):
+    """elementwise arithmetic of two 2-D arrays of the same shape, or of a 2-D array and a scalar
+    (broadcasting of differing shapes is not modelled: same shape is an obligation)"""
+    if any(v.ty[0] == 'arr' for v in (a, b)):
+        raise Unsupported("2-D with 1-D array arithmetic (broadcasting)")
+    mats = [v for v in (a, b) if v.ty[0] == 'arr2']
+    ety = None
+    for v in (a, b):
+        t = v.ty[1] if v.ty[0] == 'arr2' else v.ty
+        ety = t if ety is None else join_types(ety, t)
+    if ety is None or ety not in (T.INT, T.REAL):
+        raise Unsupported("array arithmetic element type")
+    if isinstance(op, ast.Div):
+        ety = T.REAL
+        if b.ty[0] == 'arr2':
+            raise Unsupported("division by an array")
+        ev.ctx.oblige(state, to_real(b) != 0, 'ZeroDivisionError', node, 'divisor non-zero')
+    n0, n1 = m_n0(mats[0]), m_n1(mats[0])
+    if len(mats) == 2:
+        ev.ctx.oblige(state, z3.And(m_n0(a) == m_n0(b), m_n1(a) == m_n1(b)), 'ValueError', node,
+                      'operands have the same shape (no broadcasting of 2-D arrays)')
+    r = fresh(T.TArr2(ety), 'matop')
+    i, j = z3.Int(fresh_name('ai')), z3.Int(fresh_name('aj'))
+
+    def el(v):
+        e = SymVal(v.ty[1], m_at(v, i, j)) if v.ty[0] == 'arr2' else v
+        return to_real(e) if ety == T.REAL else to_int(e)
+    state.assume(m_n0(r) == n0, m_n1(r) == n1,
+                 z3.ForAll([i, j], z3.Implies(z3.And(0 <= i, i < n0, 0 <= j, j < n1),
+                                              m_at(r, i, j) == elem_arith(op, el(a), el(b), ety == T.REAL)),
+                           patterns=[m_at(r, i, j)] + [m_at(v, i, j) for v in mats]))
+    return r
+
+
 def arr_binop(ev, state, op, a, b, node):
     if a.ty[0] == 'arr2' or b.ty[0] == 'arr2':
-        raise Unsupported("2-D array arithmetic")
+        return arr2_binop(ev, state, op, a, b, node)
     arrs = [v for v in (a, b) if v.ty[0] == 'arr']
     ety = None
     for v in (a, b):
@@ -557,7 +591,12 @@ def arr2_subscript(ev, state, base, node):
         cn = z3.If(chi > clo, chi - clo, 0)
         state.assume(m_n0(r) == rn, m_n1(r) == cn,
                      z3.ForAll([k, c], z3.Implies(z3.And(0 <= k, k < rn, 0 <= c, c < cn),
-                                                  m_at(r, k, c) == m_at(base, rlo + k, clo + c))))
+                                                  m_at(r, k, c) == m_at(base, rlo + k, clo + c)),
+                               patterns=[m_at(r, k, c)]),
+                     # the same fact indexed from the source side (trigger on base[x, y])
+                     z3.ForAll([k, c], z3.Implies(z3.And(rlo <= k, k < rlo + rn, clo <= c, c < clo + cn),
+                                                  m_at(base, k, c) == m_at(r, k - rlo, c - clo)),
+                               patterns=[m_at(base, k, c)]))
         return r
     if not isinstance(sl, ast.Tuple) or len(sl.elts) != 2:
         # m[i] -> row i ; m[a:b] -> row block
